@@ -230,8 +230,8 @@ where T: serde::de::DeserializeOwned + std::fmt::Debug + PartialEq {
 fn check_all_targets(o: &mut Oracle, sink: &mut Sink, rng: &mut Rng, bytes: &[u8], exhaustive_parts: bool) {
     let Ok(text) = std::str::from_utf8(bytes) else {
         // Not UTF-8 text (outside the statement, which is about "the same UTF-8 text"): the slice entry points
-        // refuse it; without a BOM the decoder passes bytes through and `ChunkedChars` must refuse it too.
-        // With a UTF-8 BOM the external decoder transcodes lossily (U+FFFD) — recorded, not judged.
+        // refuse it; the decoder passes UTF-8 bytes through — with a byte-order mark too since fix cbb7ef9 (before, it
+        // transcoded marked input lossily: U+FFFD) — and `ChunkedChars` must refuse it.
         let sl = serde_saphyr::from_slice::<serde_json::Value>(bytes);
         if sl.is_ok() { o.fail("C09-invalid-utf8-accepted", "from_slice accepted invalid UTF-8", bytes, "ok", "err InvalidUtf8Input"); }
         {
@@ -240,10 +240,8 @@ fn check_all_targets(o: &mut Oracle, sink: &mut Sink, rng: &mut Rng, bytes: &[u8
                 beat(&format!("invalid/{sname}: {}", hex_bytes(bytes)));
                 let r = serde_saphyr::from_reader::<_, serde_json::Value>(SchedReader::new(bytes, &sizes, rest, bytes.len(), Tail::Eof));
                 sink.count("oracle.invalid_utf8_reader_runs");
-                if r.is_ok() {
-                    if bom { sink.count("oracle.invalid_utf8_after_bom_decoded_lossily"); }
-                    else { o.fail("C09-invalid-utf8-accepted", &format!("from_reader ({sname}) accepted invalid UTF-8"), bytes, &res_tok(&r), "err"); }
-                }
+                if bom { sink.count("oracle.invalid_utf8_after_bom_runs"); }
+                if r.is_ok() { o.fail("C09-invalid-utf8-accepted", &format!("from_reader ({sname}) accepted invalid UTF-8{}", if bom { " after a byte-order mark" } else { "" }), bytes, &res_tok(&r), "err"); }
             }
         }
         return;
